@@ -50,6 +50,8 @@ type OpResult struct {
 	List   []PipeInfo
 	Status int // HTTP status if the op went through the HTTP handler
 	Body   string
+	Route  string    // C14: method and route pattern that was requested
+	At     time.Time // C14: fake time at which the request entered the handler
 	Lost   bool // the world crashed while the op was in flight
 }
 
@@ -89,6 +91,7 @@ type Stats struct {
 	DrainSteps   int
 	Leak         bool
 	Inconclusive []string
+	Sets         map[string]map[string]bool // named sets of things reached (merged by union across runs)
 }
 
 // Run is one simulated execution.
@@ -193,6 +196,16 @@ func (run *Run) violate(prop, rule, format string, a ...interface{}) {
 func (run *Run) curStep() int { return run.step }
 
 func (run *Run) probe(name string) { run.stats.Probes[name]++ }
+
+func (run *Run) reach(set, item string) {
+	if run.stats.Sets == nil {
+		run.stats.Sets = map[string]map[string]bool{}
+	}
+	if run.stats.Sets[set] == nil {
+		run.stats.Sets[set] = map[string]bool{}
+	}
+	run.stats.Sets[set][item] = true
+}
 func (run *Run) fault(name string) { run.stats.Faults[name]++ }
 
 // ---------------------------------------------------------------------------
@@ -888,6 +901,10 @@ func (run *Run) execOp(w *World, c int, op Op) OpResult {
 		w.r.SaveToStore()
 	case "reload":
 		w.r.ReplaceDefinitions(run.sc.Defs[op.Defs].toDefs())
+	case "http":
+		if w.srv != nil {
+			return run.execAuthHTTP(w, res)
+		}
 	case "shutdown":
 		if op.Signal {
 			w.signalled = true
